@@ -60,6 +60,9 @@ Definition run_split (data : list N) : list Z :=
   | Panic s => [-2; Z.of_N s]
   end.
 
+(* both observations of one input in one evaluation: 2 integers of run_split, then run_x *)
+Definition run_xs (data : list N) : list Z := run_split data ++ run_x data.
+
 (* chrono alone: [1; y; m; d] | [0] *)
 Definition run_date (d : list N) : list Z :=
   match chrono_parse d with Some (y, m, dd) => [1; y; m; dd] | None => [0] end.
